@@ -69,6 +69,10 @@ func rulesC10(c *Ctx) {
 			}
 		}
 		okE, detail := false, "no success return"
+		if ret != nil && ret.K != "map" && c.P.IsNewFunc(f) {
+			// a helper that is new on this tree and signs one message returns the single signature
+			ret = &Ex{K: "map", Args: []*Ex{mk("none", ""), ret}, Idx: -1}
+		}
 		if ret != nil && ret.K == "map" {
 			fs := fieldsOfWith(ret.Args[1])
 			cOK := fs["C_"] != nil && isCall(fs["C_"], fnHexEncode) && strings.HasSuffix(arg(fs["C_"], 0).S, "SerializeCompressed") && arg(arg(fs["C_"], 0), 0).Call == ssa.CallInstruction(sign)
